@@ -250,6 +250,7 @@ type State struct {
 	writes []writeRec       // frame log
 	logW   bool             // log havoc as writes (inside a callee's modifies clause)
 	infeasible bool         // the path condition is syntactically contradictory: nothing on this path needs proof
+	sites []string          // callees (and pseudo-callees) whose sites this path has passed, in order (everyiter)
 	mapEpoch int            // bumped by every map update and every impure call: map lookups are uninterpreted in (map, epoch, key)
 }
 
@@ -269,6 +270,7 @@ func (s *State) clone() *State {
 	n.mapEpoch = s.mapEpoch
 	n.infeasible = s.infeasible
 	n.trace = s.trace[:len(s.trace):len(s.trace)]
+	n.sites = s.sites[:len(s.sites):len(s.sites)]
 	if s.fs != nil {
 		n.fs = cloneFS(s.fs)
 	}
